@@ -815,7 +815,8 @@ class ArgumentParser(ParserDeprecations, ActionsContainer, ArgumentLinking, argp
 
             if skip_default:
                 defaults = self.get_defaults(skip_validation=True)
-                ActionLink.strip_link_target_keys(self, defaults)
+                with suppress(KeyError):  # the defaults choose no subcommand: there is nothing below one to strip
+                    ActionLink.strip_link_target_keys(self, defaults)
                 self._dump_cleanup_actions(defaults, self._actions, {"skip_validation": True, "skip_none": skip_none})
                 self._dump_delete_default_entries(cfg_dict, defaults.as_dict(), dict_values)
 
